@@ -189,8 +189,28 @@ func Xor8(a, b *Term) *Term {
 	if a.IsConst() && b.IsConst() {
 		return IntC(new(big.Int).Xor(a.val, b.val))
 	}
+	if a == b {
+		return IntI(0)
+	}
+	if a.IsConst() && a.val.Sign() == 0 {
+		return b
+	}
+	if b.IsConst() && b.val.Sign() == 0 {
+		return a
+	}
 	if a.id > b.id {
 		a, b = b, a
+	}
+	// x ^ (x ^ y) == y
+	for _, pr := range [][2]*Term{{a, b}, {b, a}} {
+		if pr[1].op == "app" && pr[1].name == "xor8" {
+			if pr[1].args[0] == pr[0] {
+				return pr[1].args[1]
+			}
+			if pr[1].args[1] == pr[0] {
+				return pr[1].args[0]
+			}
+		}
 	}
 	return App("xor8", SInt, a, b)
 }
